@@ -13,6 +13,15 @@ CHECKS = {
              technique='Coq proof over executable model + correspondence run', design='5 C20'),
 }
 PENDING = {}
+import glob
+for f in sorted(glob.glob(os.path.join(ROOT, 'manifest.d', 'C*.json'))):
+    try:
+        d = json.load(open(f))
+        pid = os.path.basename(f)[:-5]
+        if os.path.exists(os.path.join(ROOT, 'harness', pid.lower() + '.py')) and os.path.exists(os.path.join(ROOT, 'coq', 'Props', pid + '.v')):
+            CHECKS[pid] = dict(text=d['text'], note=d.get('note', ''), technique=d.get('technique', 'Coq proof over executable model + correspondence run'), design=d.get('design', '5 ' + pid))
+    except Exception as e:
+        print('skipping', f, e)
 def main():
     props = [json.loads(l)['id'] for l in open(os.path.join(ROOT, 'properties.jsonl'))]
     checks, na = [], []
